@@ -5,10 +5,10 @@ wt=$1; patch=$2; demo=$3
 cd "$wt" || exit 2
 git checkout -q -- src
 git apply "$patch" || { echo "RESULT apply-failed"; exit 1; }
-mkdir -p /tmp/seed_demos_hold; mv tests/seeded_demo*.rs /tmp/seed_demos_hold/ 2>/dev/null
-cargo test --workspace --offline --no-fail-fast > /tmp/seed_suite.log 2>&1; suite=$?
-mv /tmp/seed_demos_hold/seeded_demo*.rs tests/ 2>/dev/null
-cargo test --offline --test "$demo" > /tmp/seed_demo_with.log 2>&1; with=$?
+hold="$wt.demos_hold"; mkdir -p "$hold"; mv tests/seeded_demo*.rs "$hold"/ 2>/dev/null
+cargo test --workspace --offline --no-fail-fast > "$wt.suite.log" 2>&1; suite=$?
+mv "$hold"/seeded_demo*.rs tests/ 2>/dev/null; rmdir "$hold"
+cargo test --offline --test "$demo" > "$wt.demo_with.log" 2>&1; with=$?
 git checkout -q -- src
-cargo test --offline --test "$demo" > /tmp/seed_demo_without.log 2>&1; without=$?
+cargo test --offline --test "$demo" > "$wt.demo_without.log" 2>&1; without=$?
 echo "RESULT suite_exit=$suite demo_with_change_exit=$with demo_without_change_exit=$without"
